@@ -345,6 +345,29 @@ Proof.
   split; congruence.
 Qed.
 
+(* a native unsigned divisor behaves as the vector built from it (C20), and a native zero panics (C02) *)
+Theorem x_divrem_native P a t x :
+  Good a -> std_width t -> x < 2 ^ t -> xlen a < 2 ^ 62 -> x <> 0 ->
+  exists b q r, lift_uint a t x = Ok b /\ x_divrem_op P a b = Ok (q, r) /\ Good q /\ Good r /\
+                kind_of q = kind_of a /\ kind_of r = kind_of a /\
+                abs q = s_div (abs a) (mkbv t x) /\ abs r = s_rem (abs a) (mkbv t x).
+Proof.
+  intros Ha Ht Hx Hl Hnz. destruct (lift_uint_spec a t x Ht Hx) as (b & Hb & Gb & Ab).
+  assert (val b = x) as Hv.
+  { rewrite (abs_Good b Gb) in Ab. injection Ab as _ E. exact E. }
+  destruct (x_divrem_op_spec P a b Ha Gb Hl) as (q & r & E & Gq & Gr & Kq & Kr & Aq & Ar); [rewrite Hv; exact Hnz|].
+  exists b, q, r. rewrite Ab in Aq, Ar. auto 10.
+Qed.
+
+Theorem x_divrem_native_zero P a t :
+  Good a -> std_width t ->
+  exists b, lift_uint a t 0 = Ok b /\ x_divrem_op P a b = Panic.
+Proof.
+  intros Ha Ht. destruct (lift_uint_spec a t 0 Ht) as (b & Hb & Gb & Ab); [apply pow2_pos|].
+  exists b. split; [exact Hb|]. apply x_divrem_op_zero; try assumption.
+  rewrite (abs_Good b Gb) in Ab. injection Ab as _ E. exact E.
+Qed.
+
 (* ------------------------------------------------------------------ insert *)
 
 Theorem x_insert_spec P a i x :
